@@ -35,7 +35,8 @@ SEMANTIC = re.compile(
     r"postcondition not satisfied|precondition not satisfied|invariant not satisfied|"
     r"assertion failed|possible arithmetic (underflow|overflow)|possible division by zero|"
     r"loop invariant not|recommendation not met|assertion not satisfied|"
-    r"index out of bounds|possible .*overflow|failed precondition|cannot show")
+    r"index out of bounds|possible .*overflow|failed precondition|cannot show|"
+    r"unable to prove post-condition of closure|unable to prove pre-condition")
 PROOF_STRUCTURE = re.compile(r"decreases not satisfied|termination")
 
 
